@@ -253,7 +253,7 @@ def finish(rep, mod):
     for v in rep.violations:
         hit = None
         for f in kf:
-            if v['key'] == f['key'] or v['key'].startswith(f['key'] + ':'):
+            if v['key'] == f['key'] or v['key'].startswith(f['key']):
                 if f.get('witness_sha') and v.get('input') is not None:
                     pass
                 hit = f
